@@ -485,16 +485,18 @@ def lazyItems (rank : String) (body : S → Int → β → S × σ) :
     let t := lazyItems rank body r.1 (j + 1) rest
     (t.1, .use rank "iter" c j :: .sub r.2 :: .inc :: t.2)
 
-/-- `iterRangeShapeRef(0, shape)` (`tick=True`): every coordinate of the shape; `getPayloadRef(c)` calls
+/-- `iterRangeShapeRef(0, shape)` (`ref`, `tick=True`): every coordinate of the shape; `getPayloadRef(c)` calls
     `addUse(rank, c, index, type_=None)` — never a row, but it sets the rank's entry of `point` —
-    and hands out the stored payload or a freshly created default -/
-def denseItems (rank : String) (dfl : π) (f : Fib Int π) (body : S → Int → π → S × σ) :
+    and hands out the stored payload or a freshly created default.
+    `iterRangeShape(0, extent)` (`ref = false`, what `__iter__` does on a rank of format "U"): the same walk
+    through `getPayload(c)`, which does NOT call `addUse` (the rank's entry of `point` is never set) -/
+def denseItems (rank : String) (ref : Bool) (dfl : π) (f : Fib Int π) (body : S → Int → π → S × σ) :
     S → Nat → Nat → S × List (Item σ)
   | s, _, 0 => (s, [])
   | s, c, n + 1 =>
     let r := body s c ((posLookup f (c : Int)).getD dfl)
-    let t := denseItems rank dfl f body r.1 (c + 1) n
-    (t.1, .use rank "" c (lowerBound f (c : Int)) :: .sub r.2 :: .inc :: t.2)
+    let t := denseItems rank ref dfl f body r.1 (c + 1) n
+    (t.1, (if ref then [.use rank "" c (lowerBound f (c : Int))] else []) ++ .sub r.2 :: .inc :: t.2)
 
 /-! ### `z << src` consumed by `iterRange` -/
 
@@ -631,6 +633,20 @@ def presentIdx (dflt : Int) (t : AnyTree) : List Nat :=
   (((children t).zipIdx).filter (fun e => !anyEmpty dflt e.1.2)).map (·.2)
 def depthBelow (t : AnyTree) : Nat := t.1 - 1
 
+/-- what `__iter__(tick=False)` delivers: the non-empty elements of a rank of format "C"; for a rank of
+    format "U" with extent `n` (`u = some n`) every coordinate `0 … n-1` with the stored payload or a default -/
+def viewAny (dflt : Int) (u : Option Nat) (t : AnyTree) : Fib Int AnyTree :=
+  match u with
+  | none => presentAny dflt t
+  | some n => (List.range n).map (fun (c : Nat) =>
+      (Int.ofNat c, (posLookup (children t) (Int.ofNat c)).getD ⟨t.1 - 1, defaultTree dflt (t.1 - 1)⟩))
+
+/-- `iterPositions()`: indices of the non-empty elements (format "C"), a running count (format "U") -/
+def viewIdx (dflt : Int) (u : Option Nat) (t : AnyTree) : List Nat :=
+  match u with
+  | none => presentIdx dflt t
+  | some n => List.range n
+
 inductive SrcKind
   | fiber (x : Nat)
   | and (x y : Nat)
@@ -645,6 +661,7 @@ structure Level where
   pop : Bool
   insertPos : Int := 0
   zU : Bool := false                   -- the destination rank is kept in format "U"
+  uOps : List (Nat × Nat) := []        -- input operands whose rank at this level has format "U", with its extent
   deriving Repr
 
 structure Env where
@@ -669,30 +686,42 @@ def leafAct (env : Env) : AnyTree :=
 def label (n : Nat) (s : String) : String := s ++ toString n
 
 /-- the source of a level as a step stream; `l0` = first label it takes from `Metrics.getLabel` -/
-def srcSteps (tr : Key → Bool) (dflt : Int) (rank : String) (l0 : Nat) (env : Env) :
+def srcSteps (tr : Key → Bool) (dflt : Int) (rank : String) (l0 : Nat) (env : Env) (u : Nat → Option Nat) :
     SrcKind → List (Step (List (Nat × AnyTree)))
-  | .fiber x => (presentAny dflt (opAt env x)).map (fun e => .yield e.1 [(x, e.2)])
+  | .fiber x => (viewAny dflt (u x) (opAt env x)).map (fun e => .yield e.1 [(x, e.2)])
   | .and x y =>
     let tyA := label l0 "intersect_"; let tyB := label (l0 + 1) "intersect_"
-    (andSteps rank tyA tyB (tr (rank, tyA)) (tr (rank, tyB)) (presentIdx dflt (opAt env x)) (presentIdx dflt (opAt env y))
-      (presentAny dflt (opAt env x)) (presentAny dflt (opAt env y))).map
+    (andSteps rank tyA tyB (tr (rank, tyA)) (tr (rank, tyB)) (viewIdx dflt (u x) (opAt env x)) (viewIdx dflt (u y) (opAt env y))
+      (viewAny dflt (u x) (opAt env x)) (viewAny dflt (u y) (opAt env y))).map
       (fun s => match s with
         | .emit i => .emit i
         | .yield c p => .yield c [(x, p.1), (y, p.2)])
   | .lf x y =>
     let tyA := label l0 "intersect_"; let tyB := label (l0 + 1) "intersect_"
     (lfSteps rank rank tyA tyB (tr (rank, tyA)) (anyDefault dflt (depthBelow (opAt env y)))
-      (children (opAt env y)) (presentIdx dflt (opAt env x)) (presentAny dflt (opAt env x))).map
+      (children (opAt env y)) (viewIdx dflt (u x) (opAt env x)) (viewAny dflt (u x) (opAt env x))).map
       (fun s => match s with
         | .emit i => .emit i
         | .yield c p => .yield c [(x, p.1), (y, p.2)])
   | .proj x srcRank off lo hi own =>
     let ty := label (if own then 0 else l0) "project_"
-    (projSteps srcRank ty (tr (srcRank, ty)) off lo hi (presentIdx dflt (opAt env x)) (presentAny dflt (opAt env x))).map
+    (projSteps srcRank ty (tr (srcRank, ty)) off lo hi (viewIdx dflt (u x) (opAt env x)) (viewAny dflt (u x) (opAt env x))).map
       (fun s => match s with
         | .emit i => .emit i
         | .yield c p => .yield c [(x, p)])
   | .dense _ _ => []
+
+/-- `lshift_iterator` reads its source through `b_fiber.__iter__(tick=False)`; for a projection that is
+    `iterRange` over the lazy projected fiber, which drops elements whose payload is empty (only a source
+    rank of format "U" delivers such elements).  Tuples (`a & b`, leader-follower) are never empty. -/
+def keepStep (dflt : Int) : Step (List (Nat × AnyTree)) → Bool
+  | .yield _ [(_, p)] => !anyEmpty dflt p
+  | _ => true
+
+def popSource (tr : Key → Bool) (dflt : Int) (lv : Level) (env : Env) : List (Step (List (Nat × AnyTree))) :=
+  match lv.src with
+  | .proj .. => (srcSteps tr dflt lv.rank 2 env (aget lv.uOps) lv.src).filter (keepStep dflt)
+  | _ => srcSteps tr dflt lv.rank 2 env (aget lv.uOps) lv.src
 
 /-- the `PopCfg` of a level: destination label 0, source label 1 -/
 def popCfgOf (tr : Key → Bool) (lv : Level) : PopCfg :=
@@ -709,23 +738,29 @@ def levelItems {σ : Type} (tr : Key → Bool) (dflt : Int) (lv : Level) (env : 
     let r := popItems (popCfgOf tr lv) (anyDefault dflt dz) (anyRm dflt) (anyEmpty dflt)
       (fun _ zc bs => body { ops := bindOps env.ops bs, z := zc })
       { z := children env.z,
-        bposs := match lv.src with | .fiber x => some (presentIdx dflt (opAt env x)) | _ => none }
-      (srcSteps tr dflt lv.rank 2 env lv.src)
+        bposs := match lv.src with | .fiber x => some (viewIdx dflt (aget lv.uOps x) (opAt env x)) | _ => none }
+      (popSource tr dflt lv env)
     (mkFib dz r.1.z, r.2)
   else
     match lv.src with
     | .fiber x =>
-      iterItems lv.rank (anyEmpty dflt)
-        (fun zc _ p => body { ops := bindOps env.ops [(x, p)], z := zc })
-        env.z 0 (children (opAt env x))
+      match aget lv.uOps x with
+      | none =>
+        iterItems lv.rank (anyEmpty dflt)
+          (fun zc _ p => body { ops := bindOps env.ops [(x, p)], z := zc })
+          env.z 0 (children (opAt env x))
+      | some n =>
+        denseItems lv.rank false (anyDefault dflt (depthBelow (opAt env x))) (children (opAt env x))
+          (fun zc _ p => body { ops := bindOps env.ops [(x, p)], z := zc })
+          env.z 0 n
     | .dense x n =>
-      denseItems lv.rank (anyDefault dflt (depthBelow (opAt env x))) (children (opAt env x))
+      denseItems lv.rank true (anyDefault dflt (depthBelow (opAt env x))) (children (opAt env x))
         (fun zc _ p => body { ops := bindOps env.ops [(x, p)], z := zc })
         env.z 0 n
     | src =>
       lazyItems lv.rank
         (fun zc _ bs => body { ops := bindOps env.ops bs, z := zc })
-        env.z 0 (srcSteps tr dflt lv.rank 0 env src)
+        env.z 0 (srcSteps tr dflt lv.rank 0 env (aget lv.uOps) src)
 
 /-- a perfect loop nest: one `for` per level, innermost body `leafAct`; returns the output subtree
     as left by the nest and what the iterators called -/
@@ -755,11 +790,12 @@ def specHeader (levels : List Level) (i : Nat) : Line :=
 /-- the operand's own coordinate at a level it takes part in; the flag says that a missing element
     is replaced by a default (the follower of a leader-follower intersection: `getPayload`) -/
 def opCoordAt (lv : Level) (x : Nat) (c : Int) : Option (Int × Bool) :=
+  let u := (aget lv.uOps x).isSome      -- a rank of format "U" hands out a default for a missing element
   match lv.src with
-  | .fiber a => if a = x then some (c, false) else none
-  | .and a b => if a = x ∨ b = x then some (c, false) else none
-  | .lf a b => if a = x then some (c, false) else if b = x then some (c, true) else none
-  | .proj a _ off _ _ _ => if a = x then some (c - off, false) else none
+  | .fiber a => if a = x then some (c, u) else none
+  | .and a b => if a = x ∨ b = x then some (c, u) else none
+  | .lf a b => if a = x then some (c, u) else if b = x then some (c, true) else none
+  | .proj a _ off _ _ _ => if a = x then some (c - off, u) else none
   | .dense a _ => if a = x then some (c, true) else none
 
 /-- follow the coordinates of the enclosing loops down operand `x` -/
@@ -776,15 +812,15 @@ def navigate (dflt : Int) (x : Nat) : AnyTree → List Level → List Int → Op
 
 /-- the coordinates a level's source yields at a point (declaratively: set operations on the
     presented coordinates) -/
-def specYields (dflt : Int) (getOp : Nat → Option AnyTree) : SrcKind → List Int
-  | .fiber x => ((getOp x).map (fun t => (presentAny dflt t).map (·.1))).getD []
+def specYields (dflt : Int) (u : Nat → Option Nat) (getOp : Nat → Option AnyTree) : SrcKind → List Int
+  | .fiber x => ((getOp x).map (fun t => (viewAny dflt (u x) t).map (·.1))).getD []
   | .and x y =>
-    let a := ((getOp x).map (fun t => (presentAny dflt t).map (·.1))).getD []
-    let b := ((getOp y).map (fun t => (presentAny dflt t).map (·.1))).getD []
+    let a := ((getOp x).map (fun t => (viewAny dflt (u x) t).map (·.1))).getD []
+    let b := ((getOp y).map (fun t => (viewAny dflt (u y) t).map (·.1))).getD []
     a.filter (fun c => b.contains c)
-  | .lf x _ => ((getOp x).map (fun t => (presentAny dflt t).map (·.1))).getD []
+  | .lf x _ => ((getOp x).map (fun t => (viewAny dflt (u x) t).map (·.1))).getD []
   | .proj x _ off lo hi _ =>
-    (((getOp x).map (fun t => (presentAny dflt t).map (·.1))).getD []).filterMap (fun oc =>
+    (((getOp x).map (fun t => ((viewAny dflt (u x) t).filter (fun e => !anyEmpty dflt e.2)).map (·.1))).getD []).filterMap (fun oc =>
       let c := oc + off
       if aboveHi hi c then none
       else if inLo lo c then some c else none)
@@ -820,12 +856,15 @@ def addrRowOK (dflt : Int) (literal : Bool) (levels : List Level) (ops : List An
   | some lv, some c =>
     let q := pt.dropLast
     let getOp := fun x => navigate dflt x (ops.getD x ⟨0, (0 : Int)⟩) (levels.take i) q
-    let conc := fun x => if literal then storageOK dflt (getOp x) c pos else ordinalOK dflt (getOp x) c pos
+    let conc := fun x =>
+      match aget lv.uOps x with
+      | some n => decide (0 ≤ c) && decide (c < n) && decide (pos = c)    -- format "U": position = offset in the extent
+      | none => if literal then storageOK dflt (getOp x) c pos else ordinalOK dflt (getOp x) c pos
     let l0 := if lv.pop then 2 else 0
-    let ys := specYields dflt getOp lv.src
+    let ys := specYields dflt (aget lv.uOps) getOp lv.src
     if ty = "iter" then
       (match lv.pop, lv.src with
-       | false, .fiber x => storageOK dflt (getOp x) c pos
+       | false, .fiber x => (aget lv.uOps x).isNone && storageOK dflt (getOp x) c pos
        | _, _ => lazyOK ys c pos)
     else if ty = "populate_1" then
       lv.pop && (match lv.src with
@@ -865,10 +904,21 @@ def fileShapeOK (levels : List Level) (i : Nat) (ty : String) (f : List Line) : 
       | .hdr _ => false) &&
     chainB (if ty = "iter" then lexLt else lexLe) (rows.map (lineStamp i))
 
+/-- a plain loop over a rank of format "U" (`iterRangeShape`): its coordinate is its counter -/
+def plainU (lv : Level) : Bool :=
+  !lv.pop && (match lv.src with | .fiber x => (aget lv.uOps x).isSome | _ => false)
+
 def fileAddrOK (dflt : Int) (literal : Bool) (levels : List Level) (ops : List AnyTree) (i : Nat) (ty : String)
-    (f : List Line) : Bool :=
+    (f : List Line) (fromStamp : Bool := false) : Bool :=
   f.tail.all (fun l => match l with
-    | .dat v => addrRowOK dflt literal levels ops i ty ((v.drop (i + 1)).take (i + 1)) (v.getLast?.getD (-1))
+    | .dat v =>
+      let pt := (v.drop (i + 1)).take (i + 1)
+      -- `fromStamp`: read the coordinate of an enclosing plain format-"U" loop from its stamp entry
+      let pt' := if fromStamp then
+          (pt.zip ((v.take (i + 1)).zip (levels.take (i + 1)))).zipIdx.map (fun e =>
+            if decide (e.2 < i) && plainU e.1.2.2 then e.1.2.1 else e.1.1)
+        else pt
+      addrRowOK dflt literal levels ops i ty pt' (v.getLast?.getD (-1))
     | .hdr _ => false)
 
 
